@@ -370,7 +370,7 @@ func buildEntries(p *pair, env0 *stateEnv) (*stateEnv, string) {
 		// may burn (stranger's non-burnable token; owner holds 1000 of it)
 		twice(types.BridgeContract, definition.ABIBridge.PackMethodPanic(definition.SetTokenPairMethod, netClass, netChain, env.Locked, tokAddrBad, true, true, true, big.NewInt(10), uint32(100), uint32(2), "{}"), softDelay)
 		// a wrap request and an unwrap request
-		w := b.send(owner, types.BridgeContract, znn, big.NewInt(1000), definition.ABIBridge.PackMethodPanic(definition.WrapTokenMethodName, netClass, netChain, evmDest))
+		w := b.send(owner, types.BridgeContract, znn, big.NewInt(100000), definition.ABIBridge.PackMethodPanic(definition.WrapTokenMethodName, netClass, netChain, evmDest))
 		add("bridge", w.Hash)
 		env.UnwrapTx = types.HexToHashPanic("00000000000000000000000000000000000000000000000000000000000c0901")
 		env.UnwrapLog = 7
